@@ -36,6 +36,9 @@ Definition rerr_eqb (a b : rerr) : bool :=
   | _, _ => false
   end.
 
+(* _build_response l.319-329: the response header announces exactly the results the response carries *)
+Definition response_batch_count {A} (rs : list A) : Z := Z.of_nat (length rs).
+
 (* the checks of process_request, in source order (l.216, 229-262, 272-279, 293-300) *)
 Definition check_header (h : header) : option rerr :=
   if negb (ver_supported (h_ver h)) then Some EVersion else
